@@ -118,11 +118,7 @@ def unitssystem_from_dict(d) :
             ]
         )
 
-    return UnitsSystem(
-        space    = d["space"],
-        time     = d["time"],
-        quantity = d["quantity"]
-        )
+    return UnitsSystem(**d)
 
 def unitsdimensions_from_dict(d) :
     """
